@@ -192,9 +192,6 @@ def build():
             before={'Ok(( turnary_node': '''proof {
     let toks = self.tokenizer.toks();
     let p0 = old(self).tokenizer.pos();
-    assert(sp_or(toks, p0, old(self).next_label) == Some(t0));
-    assert(toks[t0.end as int].token is Colon);
-    assert(sp_expr(toks, t0.end + 1, t0.lbl) == Some(e0));
     assert(turnary_node.details@ =~= cd0 + t0.details + e0.details);
     if c0 is Code {
         assert(node_view(turnary_node.inner) is Code);
